@@ -1,10 +1,12 @@
 package sizes
 
 import (
+	"context"
 	"strings"
 
 	"github.com/github/git-sizer/counts"
 	"github.com/github/git-sizer/git"
+	"github.com/github/git-sizer/meter"
 )
 
 // H-pathchain (C08): with --names=full every description printed beside an
@@ -224,5 +226,94 @@ func VPH_pathChain() {
 	check("max commit size", hs.MaxCommitSizeCommit, "commit")
 	check("max parents", hs.MaxParentCountCommit, "commit")
 	check("max tag depth", hs.MaxTagDepthTag, "tag")
+	vp_Reach("end")
+}
+
+// VPH_scanPaths (C08): the same question as VPH_pathChain, but through the
+// real ScanRepositoryUsingGraph: whatever the scan loop itself tells the path
+// resolver (commit trees, names of roots, and anything a later version may add,
+// e.g. tags) the descriptions of the cited objects must resolve. The scripted
+// repository has two blobs in a tree, 1..2 commits and an annotated tag of the
+// newest commit; the root is a reference to the tag, to the commit, or both.
+func VPH_scanPaths() {
+	sc := &vpScan{}
+	ncommits := 1 + vp_Choice("commits", 2)
+	vpScript(sc, ncommits, true, 5, 9)
+	var tagOID, tipOID, treeOID git.OID
+	m := &vpRepoModel{kind: map[git.OID]string{}, entries: map[git.OID]map[string]git.OID{}, treeOf: map[git.OID]git.OID{}, target: map[git.OID]git.OID{}, names: map[string]git.OID{}}
+	for _, o := range sc.listing {
+		m.kind[o.oid] = o.typ
+		switch o.typ {
+		case "tag":
+			tagOID = o.oid
+		case "tree":
+			treeOID = o.oid
+		case "commit":
+			if tipOID == (git.OID{}) {
+				tipOID = o.oid // commits are listed newest first
+			}
+		}
+	}
+	m.entries[treeOID] = map[string]git.OID{vpEntryNames[0]: vpMkOID('b', 0), vpEntryNames[1]: vpMkOID('b', 1)}
+	for _, o := range sc.listing {
+		if o.typ == "commit" {
+			m.treeOf[o.oid] = treeOID
+		}
+	}
+	m.target[tagOID] = tipOID
+	var roots []Root
+	which := vp_Choice("roots", 3) // 0: the tag only, 1: the branch only, 2: both (for-each-ref order: heads before tags)
+	if which != 0 {
+		roots = append(roots, RefRoot{ref: git.Reference{Refname: "refs/heads/m", OID: tipOID}, walk: true, groups: []RefGroupSymbol{"", "branches"}})
+		m.names["refs/heads/m"] = tipOID
+	}
+	if which != 1 {
+		roots = append(roots, RefRoot{ref: git.Reference{Refname: "refs/tags/v1.0", OID: tagOID}, walk: true, groups: []RefGroupSymbol{"", "tags"}})
+		m.names["refs/tags/v1.0"] = tagOID
+	}
+	if which == 1 {
+		// the tag is not reachable from the branch: it is not listed
+		var l []*vpObj
+		for _, o := range sc.listing {
+			if o.typ != "tag" {
+				l = append(l, o)
+			}
+		}
+		sc.listing = l
+	}
+	vpInstallScanStubs(sc)
+	vp_LazyGoroutines(vp_Choice("lazy-goroutines", 2) == 1)
+	var hs HistorySize
+	var err error
+	panicked := vp_Catch(func() {
+		hs, err = ScanRepositoryUsingGraph(context.Background(), &git.Repository{}, roots, NameStyleFull, meter.NoProgressMeter)
+	})
+	vp_Assert(!panicked && err == nil, "a fault-free scan succeeds")
+	if panicked || err != nil {
+		return
+	}
+	check := func(what string, p *Path, kind string) {
+		if p == nil {
+			return
+		}
+		vp_Assert(m.kind[p.OID] == kind, "the cited object is of the right kind: "+what)
+		expr := p.Path()
+		if expr == "" {
+			return // only the object id is printed
+		}
+		got, ok := m.resolve(expr)
+		vp_Assert(ok && got == p.OID, "the printed description resolves (git rev-parse) to the cited object: "+what)
+	}
+	check("max blob", hs.MaxBlobSizeBlob, "blob")
+	check("max tree entries", hs.MaxTreeEntriesTree, "tree")
+	check("max path depth", hs.MaxPathDepthTree, "tree")
+	check("max path length", hs.MaxPathLengthTree, "tree")
+	check("max expanded trees", hs.MaxExpandedTreeCountTree, "tree")
+	check("max expanded blobs", hs.MaxExpandedBlobCountTree, "tree")
+	check("max expanded bytes", hs.MaxExpandedBlobSizeTree, "tree")
+	check("max commit size", hs.MaxCommitSizeCommit, "commit")
+	check("max parents", hs.MaxParentCountCommit, "commit")
+	check("max tag depth", hs.MaxTagDepthTag, "tag")
+	vp_Assert(hs.MaxBlobSizeBlob != nil && hs.MaxTreeEntriesTree != nil && hs.MaxCommitSizeCommit != nil, "the maxima are cited")
 	vp_Reach("end")
 }
